@@ -38,11 +38,16 @@ func Area64(path Path64) float64 {
 		return 0
 	}
 
-	var a int64 = 0
+	var sum int128
 	prevPt := path[len(path)-1]
 	for _, pt := range path {
-		a += (prevPt.Y + pt.Y) * (prevPt.X - pt.X)
+		sum = sum.add(mul64(prevPt.Y+pt.Y, prevPt.X-pt.X))
 		prevPt = pt
+	}
+	a, ok := sum.fitsInt64()
+	if !ok {
+		// twice the area needs more than 63 bits (extents beyond 2^31)
+		return sum.toFloat64() * 0.5
 	}
 
 	vA, _ := decimal.New(a, 0)
